@@ -263,6 +263,30 @@ def check_day(ctx, day, walk, rng, heavy, mq_all):
             st_, g_ = ctx.call(dt_bump, tv_, tenor_)
             if st_ != 'ok' or g_ != ref_:
                 ctx.fail('start_flavours', 'dt_bump(%s as %s, %r) = %s %r but from the datetime it is %s' % (t, fl_, tenor_, st_, g_, ref_), case=dict(term, tenor=str(tenor_), flavour=fl_))
+    # numpy's timedelta adds exactly that much time, like datetime's
+    for amount_, unit_ in ((36, 'h'), (-90, 'm'), (45, 's'), (3, 'D')):
+        mon['fixed_units'] += 1
+        td_ = np.timedelta64(amount_, unit_)
+        st_, g_ = ctx.call(dt_bump, t, td_)
+        ref_ = t + datetime.timedelta(**{{'h': 'hours', 'm': 'minutes', 's': 'seconds', 'D': 'days'}[unit_]: amount_})
+        if st_ != 'ok' or g_ != ref_:
+            ctx.fail('fixed_units', 'dt_bump(%s, %r) = %s %r, expected %s' % (t, td_, st_, g_, ref_), case=dict(term, tenor=str(td_)))
+    # a zero business-day bump written with a minus sign is still a zero bump: a weekend start rolls forward to Monday
+    for tenor_, same_ in (('-0b', '0b'), ('-0b-1b', '-1b'), ('+0b', '0b'), ('-0b2b', '2b')):
+        mon['b_stepping_oracle'] += 1
+        st_, g_ = ctx.call(dt_bump, t, tenor_)
+        ref_ = dt_bump(t, same_)
+        if st_ != 'ok' or g_ != ref_:
+            ctx.fail('b_stepping_oracle', 'dt_bump(%s (%s), %r) = %s %r but %r gives %s' % (t, t.strftime('%a'), tenor_, st_, g_, same_, ref_), case=dict(term, tenor=tenor_))
+    # a tenor given as one list object, used again for the next date: the caller's list is untouched and means the same
+    lst_ = ['1y', '-3m', '2d'] if day.day % 2 else ['2b']
+    keep_ = list(lst_)
+    r1_ = ctx.call(dt_bump, t, lst_)
+    r2_ = ctx.call(dt_bump, t, lst_)
+    mon['compound_left_to_right'] += 1
+    ref_ = dt_bump(t, ''.join(keep_))
+    if lst_ != keep_ or r1_[0] != 'ok' or r2_[0] != 'ok' or r1_[1] != ref_ or r2_[1] != ref_:
+        ctx.fail('compound_left_to_right', 'dt_bump(%s, %r) twice with the same list object: %r then %r (list now %r); the string spelling gives %s' % (t, keep_, r1_[1], r2_[1], lst_, ref_), case=dict(term, tenor=str(keep_)))
     # an explicit '+' is the same bump as no sign
     for tenor_ in ('+%dd' % rng.randint(1, 40), '+%db' % rng.randint(1, 30), '+%dm' % rng.randint(1, 14), '1y+3m', '-3m+2d', '+1w-2d', '+2h'):
         mon['explicit_plus_sign'] += 1
